@@ -225,6 +225,8 @@ func runJob(scratch string, id int, job worker.Job, pi *propInfo, perRunTimeout 
 		switch {
 		case hung:
 			return nil, fmt.Errorf("worker %d: run %d exceeded the per-run wall-clock cap of %v (watchdog)", id, idx, perRunTimeout)
+		case strings.Contains(tail, "WARNING: DATA RACE") && harnessOnlyRace(tail):
+			return nil, fmt.Errorf("worker %d: data race between two accesses of the harness itself (not a verdict about orda):\n%s", id, firstLines(raceBlock(tail), 30))
 		case strings.Contains(tail, "WARNING: DATA RACE"):
 			v = &kernel.Violation{Property: job.Property, Oracle: job.Property + ".no-race", Fingerprint: raceFingerprint(tail), Message: firstLines(raceBlock(tail), 45)}
 		default:
@@ -321,6 +323,29 @@ func raceBlock(s string) string {
 }
 
 var raceFrame = regexp.MustCompile(`\n\s+(github\.com/orda-io/orda/[^\s(]+)`)
+
+// harnessOnlyRace: the frame that performs the access is, in both stacks of the report, harness code.
+func harnessOnlyRace(s string) bool {
+	b := raceBlock(s)
+	var tops []string
+	lines := strings.Split(b, "\n")
+	for i, ln := range lines {
+		t := strings.TrimSpace(ln)
+		if (strings.HasPrefix(t, "Write at ") || strings.HasPrefix(t, "Read at ") || strings.HasPrefix(t, "Previous write at ") || strings.HasPrefix(t, "Previous read at ") ||
+			strings.HasPrefix(t, "Atomic write at ") || strings.HasPrefix(t, "Previous atomic write at ") || strings.HasPrefix(t, "Atomic read at ") || strings.HasPrefix(t, "Previous atomic read at ")) && i+1 < len(lines) {
+			tops = append(tops, strings.TrimSpace(lines[i+1]))
+		}
+	}
+	if len(tops) < 2 {
+		return false
+	}
+	for _, t := range tops[:2] {
+		if !strings.HasPrefix(t, "verif/sim/") {
+			return false
+		}
+	}
+	return true
+}
 
 func raceFingerprint(s string) string {
 	b := raceBlock(s)
